@@ -70,7 +70,9 @@ def run_one(ctx, rng):
                         noise=0.002, var_kind="float", span=rng.choice([40.0, 200.0]), irregular=False)
     # integral grid -> some integral bounds
     secs, kinds = convert_bounds(rng, fibre.sections_dict(c))
+    import copy
     desc = dict(calib.case_desc(c), bound_types=kinds)
+    secs0, match0 = copy.deepcopy(secs), copy.deepcopy(list(c.matching))   # what was passed in, kept apart from every later edit
     kw = dict(sections=secs, trans_att=list(c.trans_att), **c.var_args)
     if c.matching:
         kw["matching_sections"] = list(c.matching)
@@ -86,8 +88,8 @@ def run_one(ctx, rng):
         stages = {}
 
         def report(ds_):
-            return dict(sections=11 if sections_equal(ds_.dts.sections, secs) else (None if ds_.dts.sections is None else -1),
-                        matching=22 if matching_equal(ds_.dts.matching_sections, c.matching or None) else -1,
+            return dict(sections=11 if sections_equal(ds_.dts.sections, secs0) else (None if ds_.dts.sections is None else -1),
+                        matching=22 if matching_equal(ds_.dts.matching_sections, match0 or None) else -1,
                         trans_att=33 if ("trans_att" in ds_.coords and np.array_equal(ds_["trans_att"].values, np.asarray(c.trans_att, dtype=float))) else None)
         stages["calibrate"] = report(out)
         try:
@@ -118,8 +120,27 @@ def run_one(ctx, rng):
         finally:
             if path.exists():
                 path.unlink()
+        # later on: the caller edits the objects it was handed (to prepare a next calibration) and its own input dictionary; every
+        # dataset must go on reporting the definitions it was calibrated with
+        try:
+            got = out.dts.sections
+            if got:
+                k0 = sorted(got)[0]
+                got[k0].append(slice(1.0e9, 1.0e9 + 1.0))
+                del got[sorted(got)[-1]]
+            gm = out.dts.matching_sections
+            if gm:
+                gm.pop(0)
+            secs[sorted(secs)[0]].append(slice(2.0e9, 2.0e9 + 1.0))
+            again = {"calibrate": out, "monte_carlo": mc, "stored": (back if "stored" in stages else None)}
+            for st_name, ds_ in again.items():
+                if ds_ is not None and st_name in stages:
+                    stages[st_name + " (asked again after the caller edited the returned objects)"] = report(ds_)
+            ctx.count("asked again after editing the returned definitions")
+        except Exception as e:  # noqa: BLE001
+            ctx.fail(f"asking for the definitions again raised {type(e).__name__}: {e}", desc)
     for stage, rep in stages.items():
-        mod = {k: m[stage][k] for k in ("sections", "matching", "trans_att")}
+        mod = {k: m[stage.split(" (")[0]][k] for k in ("sections", "matching", "trans_att")}
         if rep != mod:
             ctx.mismatch(f"Attrs.{stage}", desc, mod, rep)
             what = [k for k in rep if rep[k] != mod[k]]
